@@ -31,6 +31,8 @@ VARIANTS = {
     "tsan-i64": dict(san=["-O1", "-fsanitize=thread"], defs=["-DXSDK_INDEX_SIZE=64"], vblas=False),
     "dbg": dict(san=["-O0", "-fsanitize=address"], defs=[], vblas=False),
     "plain": dict(san=["-O2"], defs=[], vblas=False, nocov=True),
+    # source-line coverage of the library under the simulator (tools/linecov.sh); not used by any registered check
+    "cov": dict(san=["-O0", "-fprofile-instr-generate", "-fcoverage-mapping"], defs=[], vblas=False),
 }
 
 EXCLUDE_SRC = {"sp_ienv.c", "superlu_timer.c"}
